@@ -493,6 +493,33 @@ func runC05(w *World, r *Report) {
 		})
 		r.Check(okk, "C05.nested-once", "clearCheckPoint stores a nil checkpoint", clr.Pos(), "context.WithValue(ctx, checkPointKey{}, nil)", "clearCheckPoint does not clear")
 	}
+	clearCheckPointExact(w, r, "C05.nested-once")
+}
+
+// clearCheckPointExact: clearCheckPoint hands its context back unchanged only when that context carries no checkpoint
+// at all (getCheckPointFromCtx(ctx) == nil dominates the return) — under any weaker condition a freshly scheduled
+// nested graph finds the enclosing graph's checkpoint in its context and restores itself from it.
+func clearCheckPointExact(w *World, r *Report, rule string) {
+	clr := w.Fn("compose", "clearCheckPoint")
+	get := w.Fn("compose", "getCheckPointFromCtx")
+	n := 0
+	instrs(clr, func(in ssa.Instruction) {
+		ret, ok := in.(*ssa.Return)
+		if !ok || len(ret.Results) != 1 || len(clr.Params) == 0 || ret.Results[0] != ssa.Value(clr.Params[0]) {
+			return
+		}
+		n++
+		exact := hasGuard(ret.Block(), func(g guard) bool {
+			return guardIsNil(g, func(v ssa.Value) bool { c, ok := v.(*ssa.Call); return ok && isCallTo(c, get) })
+		})
+		r.Check(exact, rule, fmt.Sprintf("clearCheckPoint: unchanged-context return #%d", n), ret.Pos(), "only under getCheckPointFromCtx(ctx) == nil", "the context is handed back with a checkpoint still in it under some other condition: a nested graph scheduled for the first time in a resumed run restores from the enclosing graph's checkpoint — it skips its START and its interrupt-before gate (a configured node runs without ever being reported) or fails with 'channel … from checkpoint is not registered'")
+	})
+	for _, p := range clr.Blocks {
+		_ = p
+	}
+	if n == 0 {
+		r.Info(rule, "clearCheckPoint: no unchanged-context return", clr.Pos(), "the function always installs a nil checkpoint")
+	}
 }
 
 // streamPairsSetChecks: NEVER-WRITTEN applied to the function-bearing fields of package compose, armed for
@@ -534,6 +561,57 @@ func streamPairsSetChecks(w *World, r *Report, rule string) {
 	})
 	if n < 4 {
 		undecidedf("%s: %d pair-table entries in graph.compile (floor 4)", rule, n)
+	}
+	// each entry is on the right side: table of pending INPUTS (1st argument of newCheckPointer) gets a node's input pair
+	// and, for END, the graph's OUTPUT pair (what END receives is the graph's output); the table of channel contents per
+	// SENDER (2nd argument) gets a node's output pair and, for START, the graph's INPUT pair (what START sends)
+	ncp := w.Fn("compose", "newCheckPointer")
+	var inTable, outTable ssa.Value
+	for _, c := range callsTo(gcompile, ncp) {
+		inTable, outTable = c.Common().Args[0], c.Common().Args[1]
+	}
+	if inTable == nil {
+		undecidedf("%s: newCheckPointer call not found in graph.compile", rule)
+	}
+	cSTART, cEND := constStringOf(w, "compose", "START"), constStringOf(w, "compose", "END")
+	k := 0
+	instrs(gcompile, func(in ssa.Instruction) {
+		mu, ok := in.(*ssa.MapUpdate)
+		if !ok || (mu.Map != inTable && mu.Map != outTable) {
+			return
+		}
+		f, _ := loadedField(mu.Value)
+		if f == nil {
+			return
+		}
+		k++
+		isInputTable := mu.Map == inTable
+		wantInputPair := isInputTable
+		who := "a node"
+		if ks, ok := constString(mu.Key); ok {
+			switch ks {
+			case cEND:
+				who = "END"
+				wantInputPair = false
+				if !isInputTable {
+					r.Fail(rule, fmt.Sprintf("graph.compile pair table side of entry #%d", k), mu.Pos(), "END is registered as a sender")
+					return
+				}
+			case cSTART:
+				who = "START"
+				wantInputPair = true
+				if isInputTable {
+					r.Fail(rule, fmt.Sprintf("graph.compile pair table side of entry #%d", k), mu.Pos(), "START is registered as a receiver of pending inputs")
+					return
+				}
+			}
+		}
+		gotInput := strings.HasPrefix(f.Name(), "input")
+		table := map[bool]string{true: "pending inputs (by receiver)", false: "channel contents (by sender)"}[isInputTable]
+		r.Check(gotInput == wantInputPair, rule, fmt.Sprintf("graph.compile pair table side of entry #%d (%s, table of %s)", k, who, table), mu.Pos(), "installs "+f.Name(), fmt.Sprintf("installs %s for %s in the table of %s: a value of the other type is parked there, so a Stream/Transform run interrupted while it is pending fails with 'cannot convert sr to streamReader[T]' instead of returning the interrupt (no checkpoint written), and a resume under another paradigm fails to restore", f.Name(), who, table))
+	})
+	if k < 4 {
+		undecidedf("%s: %d pair-table entries with a field source (floor 4)", rule, k)
 	}
 }
 
